@@ -652,10 +652,215 @@ def run(ctx):
                 if bad:
                     ctx.spec_fail("compute_sequence_inf", bad, {"problem": pb.wire(), "ts": ts, "x0": ratm(x0m), "W": ratm(W)})
 
+    run_histories(ctx, cases, LQ)
     run_rblq(ctx, cases, RBLQ, LQ)
     run_nnash(ctx, cases, nnash, LQ)
     run_markov(ctx, cases, LQMarkov, LQ)
     ctx.run_cases(cases)
+
+
+# ----------------------------------------------------------------------------------------------
+# histories of calls on ONE object
+
+
+def cmp_hist(env):
+    """records `key=value ...` of a whole history; None / error kinds exactly, numbers inside env"""
+
+    def cmp(model, impl):
+        ta, tb = model.split(" "), impl.split(" ")
+        if len(ta) != len(tb):
+            return "different number of fields (%d vs %d)" % (len(ta), len(tb))
+        for x, y in zip(ta, tb):
+            ka, va = x.split("=", 1)
+            kb, vb = y.split("=", 1)
+            if ka != kb:
+                return "field %s vs %s" % (ka, kb)
+            if va == "None" or vb == "None" or ka.startswith("E"):
+                if va != vb:
+                    return "%s: %s vs %s" % (ka, va, vb)
+                continue
+            if ka[0] in "xu":
+                la, lb = mats(va), mats(vb)
+                if len(la) != len(lb):
+                    return "%s: %d vs %d columns" % (ka, len(la), len(lb))
+                for i, (p, q) in enumerate(zip(la, lb)):
+                    why = close_m(p, q, env)
+                    if why:
+                        return "%s[%d]: %s" % (ka, i, why)
+            elif ka[0] == "d":
+                p, q = parse_rat(va), parse_rat(vb)
+                if abs(p - q) > F(env) * max(F(1), abs(q)):
+                    return "%s: %.6e vs %.6e" % (ka, float(p), float(q))
+            else:
+                why = close_m(parse_ratm(va), parse_ratm(vb), env)
+                if why:
+                    return "%s: %s" % (ka, why)
+        return None
+    return cmp
+
+
+def exact_chain(pb, Rf, T):
+    """the T-period programme by backward induction in Fractions from Rf (each P_t rounded to doubles so that the
+    rationals stay small): [(F_s, P_s, d_s)] for s = 1..T, independent of the code and of any object state"""
+    out = []
+    P, d = fm(tofloat(Rf)), F(0)
+    for _ in range(T):
+        r = pb.update(P, d)
+        if r is None:
+            return None
+        Fm, P, d = r
+        P = fm(tofloat(P))
+        d = F(float(d))
+        out.append((Fm, P, d))
+    return out
+
+
+def run_histories(ctx, cases, LQ):
+    rng = ctx.rng
+
+    def state_str(i, lq):
+        sF = "None" if lq.F is None else fxm(lq.F)
+        sP = "None" if lq.P is None else fxm(lq.P)
+        sd = "None" if lq.P is None else fx(lq.d)
+        return "F%d=%s P%d=%s d%d=%s" % (i, sF, i, sP, i, sd)
+
+    for it in range(ctx.n(24, 300)):
+        finite = rng.random() < 0.7
+        Q, R, A, B, C, N, beta, cross = gen_problem(ctx, need_beta_lt1=not finite)
+        n, k = len(R), len(Q)
+        if finite:
+            T = rng.randint(1, 6)
+            Rf = psd(ctx, n)
+            lq = make_lq(LQ, Q, R, A, B, C, N, beta, cross, T=T, Rf=Rf)
+        else:
+            T, Rf = 0, None
+            lq = make_lq(LQ, Q, R, A, B, C, N, beta, cross)
+        pb = prob_of(lq)
+        ncalls = rng.randint(2, 5)
+        kinds = []
+        for c in range(ncalls):
+            r = rng.random()
+            if not finite and c == 0:
+                kinds.append("s" if r < 0.5 else "q")     # update_values needs self.P
+            else:
+                kinds.append("u" if r < 0.35 else ("q" if r < 0.85 else "s"))
+        if "q" not in kinds[1:]:
+            kinds[-1] = "q"                                 # a compute_sequence with a non-trivial past
+        chain = 0
+        longest = 0
+        max_te = 0
+        req_r, req_f, impl = [], [], []
+        for i, kd in enumerate(kinds):
+            P_before = None if lq.P is None else fm(lq.P)
+            d_before = None if lq.P is None else F(float(lq.d))
+            try:
+                if kd == "u":
+                    lq.update_values()
+                    chain += 1
+                    req_r.append("c%d=u" % i)
+                    req_f.append("c%d=u" % i)
+                    impl.append(state_str(i, lq))
+                    ctx.count("hist:update")
+                    ex = pb.update(P_before, d_before)
+                    if ex is not None:
+                        why = close_m(fm(lq.F), ex[0], ENV) or close_m(fm(lq.P), ex[1], ENV)
+                        if why:
+                            ctx.spec_fail("hist_update_values", "call %d (update_values) is not the Riccati update of the "
+                                          "object's previous (P,d): %s" % (i, why), {"problem": pb.wire(), "calls": kinds})
+                elif kd == "s":
+                    lq.stationary_values()
+                    chain = 0
+                    Pr = fm(lq.P)
+                    req_r.append("c%d=s Pric%d=%s" % (i, i, ratm(Pr)))
+                    req_f.append("c%d=s Pric%d=%s" % (i, i, fxm(lq.P)))
+                    impl.append(state_str(i, lq))
+                    ctx.count("hist:stationary")
+                else:
+                    ts = rng.choice([None, None, rng.randint(1, 8)])
+                    Te = (T if not ts else min(ts, T)) if finite else (ts if ts else 100)
+                    if not finite and ts is None and rng.random() < 0.7:
+                        ts = rng.randint(1, 8)
+                        Te = ts
+                    max_te = max(max_te, Te)
+                    W = [[F(rng.randint(-8, 8), 4) for _ in range(Te + 1)] for _ in range(lq.j)]
+                    x0 = [[F(rng.randint(-4, 4), 2)] for _ in range(n)]
+                    was_none = lq.P is None
+                    xp, up, wp = lq.compute_sequence(np.array([float(v[0]) for v in x0]), ts_length=ts,
+                                                     random_state=FixedNormals(tofloat(W)))
+                    chain = Te if finite else chain
+                    extra_r = extra_f = ""
+                    if was_none:
+                        extra_r = " Pric%d=%s" % (i, ratm(fm(lq.P)))
+                        extra_f = " Pric%d=%s" % (i, fxm(lq.P))
+                    req_r.append("c%d=q ts%d=%d x0%d=%s W%d=%s%s" % (i, i, ts or 0, i, ratm(x0), i, ratm(W), extra_r))
+                    req_f.append("c%d=q ts%d=%d x0%d=%s W%d=%s%s" % (i, i, ts or 0, i, fxm(tofloat(x0)), i, fxm(tofloat(W)), extra_f))
+                    impl.append("%s x%d=%s u%d=%s" % (state_str(i, lq), i, showms([colm(xp[:, t]) for t in range(xp.shape[1])]),
+                                                      i, showms([colm(up[:, t]) for t in range(up.shape[1])])))
+                    ctx.count("hist:sequence-%s-%s" % ("finite" if finite else "infinite", "fresh" if i == 0 else "after-calls"))
+                    # ---- spec: judged independently of the object's history ----
+                    bad = None
+                    xs = [fm(colm(xp[:, t])) for t in range(xp.shape[1])]
+                    us = [fm(colm(up[:, t])) for t in range(up.shape[1])]
+                    if xp.shape != (n, Te + 1) or up.shape != (k, Te):
+                        bad = "shapes %r %r" % (xp.shape, up.shape)
+                    elif finite:
+                        ch = exact_chain(pb, Rf, Te)
+                        if ch is not None:
+                            for t in range(Te):
+                                w = close_m(us[t], scal(F(-1), mm(ch[Te - 1 - t][0], xs[t])), ENV_PATH)
+                                if w:
+                                    bad = "u_%d is not -F_%d x_%d of the %d-period programme: %s" % (t, t, t, Te, w)
+                                    break
+                                nxt = madd(madd(mm(pb.A, xs[t]), mm(pb.B, us[t])), mm(pb.C, [[W[r_][t + 1]] for r_ in range(lq.j)]))
+                                w = close_m(xs[t + 1], nxt, ENV_PATH)
+                                if w:
+                                    bad = "x_%d: %s" % (t + 1, w)
+                                    break
+                            if not bad:
+                                w = close_m(fm(lq.P), ch[-1][1], ENV_PATH)
+                                if not w and abs(F(float(lq.d)) - ch[-1][2]) > F(ENV_PATH) * max(1, abs(ch[-1][2])):
+                                    w = "d=%r, programme %.12g" % (lq.d, float(ch[-1][2]))
+                                if w:
+                                    bad = "(P, d) left in the object is not the value of the %d-period programme: %s" % (Te, w)
+                            if not bad and Te * k <= 8 and n <= 3:
+                                P_qp = qp_value_matrix(pb, fm(tofloat(Rf)), Te)
+                                if P_qp is not None:
+                                    ctx.count("hist:qp-oracle")
+                                    w = close_m(fm(lq.P), P_qp, ENV_PATH)
+                                    if w:
+                                        bad = "P left in the object is not the value matrix of the stacked programme: " + w
+                    else:
+                        Fq = fm(lq.F)
+                        for t in range(Te):
+                            w = close_m(us[t], scal(F(-1), mm(Fq, xs[t])), ENV_PATH)
+                            if w:
+                                bad = "u_%d != -F x_%d: %s" % (t, t, w)
+                                break
+                            nxt = madd(madd(mm(pb.A, xs[t]), mm(pb.B, us[t])), mm(pb.C, [[W[r_][t + 1]] for r_ in range(lq.j)]))
+                            w = close_m(xs[t + 1], nxt, ENV_PATH)
+                            if w:
+                                bad = "x_%d: %s" % (t + 1, w)
+                                break
+                    if bad:
+                        ctx.spec_fail("hist_compute_sequence", "call %d of the history %s on one %s-horizon object: %s"
+                                      % (i, "".join(kinds), "finite" if finite else "infinite", bad),
+                                      {"problem": pb.wire(), "T": T, "Rf": ratm(Rf) if finite else None, "calls": kinds,
+                                       "call": i, "ts": ts, "x0": ratm(x0), "W": ratm(W)})
+            except (np.linalg.LinAlgError, ValueError, TypeError) as e:
+                impl.append("E%d=%s" % (i, "LinAlgError" if isinstance(e, np.linalg.LinAlgError) else type(e).__name__))
+                ctx.count("hist:raised-" + type(e).__name__)
+                req_r.append("c%d=%s" % (i, kd))
+                req_f.append("c%d=%s" % (i, kd))
+                break
+            longest = max(longest, chain)
+        head_r = "%s T=%d %scalls=%d " % (pb.wire(), T, ("Rf=%s " % ratm(Rf)) if finite else "", len(req_r))
+        head_f = "%s T=%d %scalls=%d " % (pb.wire(fxm, fx), T, ("Rf=%s " % fxm(tofloat(Rf))) if finite else "", len(req_f))
+        impl_s = " ".join(impl)
+        ctx.count("hist:histories")
+        n_upd = sum(1 for kd in kinds if kd == "u")
+        if (finite and small_growth(k, longest)) or (not finite and max_te <= 12 and n_upd <= 2):
+            cases.append(Case("C07 rat hist " + head_r + " ".join(req_r), impl_s, cmp=cmp_hist(ENV_PATH), tag="hist-rat"))
+        cases.append(Case("C07 float hist " + head_f + " ".join(req_f), impl_s, cmp=cmp_hist(ENV_PATH), tag="hist-float"))
 
 
 # ----------------------------------------------------------------------------------------------
